@@ -269,7 +269,27 @@ pub(crate) fn m_at_rule_skip() {
     }
 }
 
+/// Class, id, element and universal selectors, and the sibling count of :nth-child, through the public API.
+pub(crate) fn m_selector_simple() {
+    let _which: u8 = kani::any();
+    let html = "<div><p class=\"a b\">ab</p><p class=\"b\">bonly</p><p class=\"ab\">joined</p><p id=\"x\">idx</p><span class=\"b\">spanb</span> text <p>plain</p></div>";
+    let hidden = |css: &str| -> Vec<&'static str> {
+        let out = crate::config::plain().add_css(css).expect("css").string_from_read(html.as_bytes(), 60).expect("renders");
+        ["ab", "bonly", "joined", "idx", "spanb", "plain"].iter().filter(|w| !out.split_whitespace().any(|t| t == **w)).cloned().collect()
+    };
+    assert!(hidden(".b { display: none; }") == vec!["ab", "bonly", "spanb"], "class selector: {:?}", hidden(".b { display: none; }"));
+    assert!(hidden(".a { display: none; }") == vec!["ab"], "class selector (first word): {:?}", hidden(".a { display: none; }"));
+    assert!(hidden("#x { display: none; }") == vec!["idx"], "id selector: {:?}", hidden("#x { display: none; }"));
+    assert!(hidden("span { display: none; }") == vec!["spanb"], "element selector: {:?}", hidden("span { display: none; }"));
+    assert!(hidden("p.b { display: none; }") == vec!["ab", "bonly"], "compound selector: {:?}", hidden("p.b { display: none; }"));
+    assert!(hidden("div > * { display: none; }").len() == 6, "universal selector: {:?}", hidden("div > * { display: none; }"));
+    // :nth-child counts element siblings only (the text node between the span and the last p does not count)
+    assert!(hidden("p:nth-child(6) { display: none; }") == vec!["plain"], "nth-child sibling count: {:?}", hidden("p:nth-child(6) { display: none; }"));
+    assert!(hidden("span:nth-child(5) { display: none; }") == vec!["spanb"], "nth-child sibling count: {:?}", hidden("span:nth-child(5) { display: none; }"));
+    assert!(hidden("p:nth-child(5) { display: none; }").is_empty(), "nth-child must also match the element: {:?}", hidden("p:nth-child(5) { display: none; }"));
+}
+
 crate::verif_common::registry! {
-    m_at_rule_skip, m_inline_important, m_css_final_semicolon, m_css_case, m_display_none, m_descendant_self, m_css_progress, m_nth_parse, m_nth_child,
+    m_selector_simple, m_at_rule_skip, m_inline_important, m_css_final_semicolon, m_css_case, m_display_none, m_descendant_self, m_css_progress, m_nth_parse, m_nth_child,
     s3_selector_specificity,
 }
